@@ -89,6 +89,8 @@ func (e *SpecEnv) typeByName(n string) types.Type {
 		return t
 	}
 	switch n {
+	case "text":
+		return textType
 	case "ByteSlice":
 		return types.NewSlice(types.Typ[types.Uint8])
 	case "interface{}", "any":
@@ -233,6 +235,9 @@ func (e *SpecEnv) ghostType(name string) (types.Type, bool) {
 	}
 	if tn == "bytes" {
 		return types.NewArray(types.Typ[types.Uint8], 1<<40), true
+	}
+	if tn == "refset" { // set of references (ownership ghost state)
+		return types.NewArray(types.Typ[types.Bool], 1<<40), true
 	}
 	return e.typeByName(tn), true
 }
@@ -774,6 +779,16 @@ func (e *SpecEnv) call(n *SCall, hint types.Type) Val {
 			return Val{T: I, S: fmt.Sprintf("(soff %s)", v.S)}
 		}
 		return Val{T: I, S: fmt.Sprintf("(xoff %s)", v.S)}
+	case "allocated": // the reference denotes an object that exists in the current state
+		v := e.eval(n.Args[0], nil)
+		r := v.S
+		if _, isSlice := v.T.Underlying().(*types.Slice); isSlice {
+			r = fmt.Sprintf("(sbase %s)", v.S)
+		}
+		if e.st == nil {
+			sfail("allocated() in a state-free context")
+		}
+		return Val{T: types.Typ[types.Bool], S: fmt.Sprintf("(< (born %s) %s)", r, c.now(e.st))}
 	case "fresh", "alive":
 		v := e.eval(n.Args[0], nil)
 		s := v.S
@@ -857,6 +872,44 @@ func (e *SpecEnv) call(n *SCall, hint types.Type) Val {
 			r = fmt.Sprintf("(sbase %s)", v.S)
 		}
 		return Val{T: types.Typ[types.Bool], S: fmt.Sprintf("(and (> %s 0) (>= (born %s) %s))", r, r, c.now(e.pre))}
+	case "sizeof": // unsafe.Sizeof of a type under the gc/amd64 layout
+		t := e.typeFromExpr(n.Args[0])
+		return e.numLit(big.NewInt(c.eng.sizes.Sizeof(t)), hint)
+	case "offsetof": // unsafe.Offsetof(T{}.field)
+		t := e.typeFromExpr(n.Args[0])
+		st, ok := t.Underlying().(*types.Struct)
+		id, ok2 := n.Args[1].(*SIdent)
+		if !ok || !ok2 {
+			sfail("offsetof(StructType, field)")
+		}
+		idx := fieldIndex(st, id.Name)
+		if idx < 0 {
+			sfail("offsetof: no field %s in %s", id.Name, t)
+		}
+		var fields []*types.Var
+		for i := 0; i < st.NumFields(); i++ {
+			fields = append(fields, st.Field(i))
+		}
+		return e.numLit(big.NewInt(c.eng.sizes.Offsetsof(fields)[idx]), hint)
+	case "txt": // the text (content) of a string or byte slice
+		a := e.eval(n.Args[0], nil)
+		if isByteSlice(a.T) {
+			if e.st == nil {
+				sfail("txt(bytes) in a state-free context")
+			}
+			hn, hs := c.heapNameArr(types.Typ[types.Uint8])
+			a = Val{T: types.Typ[types.String], S: fmt.Sprintf("(mkstr (select %s (sbase %s)) (xoff %s) (xlen %s) 0)", c.heap(e.st, hn, hs), a.S, a.S, a.S)}
+		}
+		if !isString(a.T) {
+			sfail("txt() takes a string or []byte")
+		}
+		c.sortOf(textType)
+		c.declStrEq()
+		c.decl("fn:txt", "(declare-fun txt (Str) Txt)")
+		// same bytes <=> same text
+		c.decl("ax:txt", "(assert (forall ((a!t Str) (b!t Str)) (! (= (streq a!t b!t) (= (txt a!t) (txt b!t))) :pattern ((txt a!t) (txt b!t)))))")
+		arg := fmt.Sprintf("(ite (= (slen %s) %s) %s (mkstr (sarr %s) (soff %s) (slen %s) 0))", a.S, c.idxLit(0), c.strConst(""), a.S, a.S, a.S)
+		return Val{T: textType, S: fmt.Sprintf("(txt %s)", arg)}
 	case "aliases": // base reference of the mutable byte array a string value is a view of (0: none)
 		v := e.eval(n.Args[0], nil)
 		if !isString(v.T) {
@@ -974,6 +1027,33 @@ func (e *SpecEnv) callPure(pf *PureFunc, args []SExpr, hint types.Type) Val {
 				sorts = append(sorts, c.sortOf(penv.typeByName(p.Type)))
 			}
 			c.decls = append(c.decls, fmt.Sprintf("(declare-fun %s (%s) %s)", name, strings.Join(sorts, " "), c.sortOf(rt)))
+			// spec functions depend on the text of their string arguments only (congruence w.r.t. content equality)
+			hasStr := false
+			for _, so := range sorts {
+				if so == "Str" {
+					hasStr = true
+				}
+			}
+			if hasStr {
+				c.declStrEq()
+				var bs, as1, as2, eqs []string
+				for i, so := range sorts {
+					bs = append(bs, fmt.Sprintf("(a!%d %s) (b!%d %s)", i, so, i, so))
+					as1 = append(as1, fmt.Sprintf("a!%d", i))
+					as2 = append(as2, fmt.Sprintf("b!%d", i))
+					if so == "Str" {
+						eqs = append(eqs, fmt.Sprintf("(streq a!%d b!%d)", i, i))
+					} else {
+						eqs = append(eqs, fmt.Sprintf("(= a!%d b!%d)", i, i))
+					}
+				}
+				concl := fmt.Sprintf("(= (%s %s) (%s %s))", name, strings.Join(as1, " "), name, strings.Join(as2, " "))
+				if c.sortOf(rt) == "Str" {
+					concl = fmt.Sprintf("(streq (%s %s) (%s %s))", name, strings.Join(as1, " "), name, strings.Join(as2, " "))
+				}
+				c.decls = append(c.decls, fmt.Sprintf("(assert (forall (%s) (! (=> (and %s) %s) :pattern ((%s %s) (%s %s)))))",
+					strings.Join(bs, " "), strings.Join(eqs, " "), concl, name, strings.Join(as1, " "), name, strings.Join(as2, " ")))
+			}
 		} else {
 			// declarations made while evaluating the body precede the definition
 			body := fenv.eval(pf.Body, rt)
@@ -992,7 +1072,8 @@ func (e *SpecEnv) callPure(pf *PureFunc, args []SExpr, hint types.Type) Val {
 		}
 		if a.T != nil && isString(a.T) {
 			// spec functions see the text of a string, not which buffer it is a view of
-			as = append(as, fmt.Sprintf("(mkstr (sarr %s) (soff %s) (slen %s) 0)", a.S, a.S, a.S))
+			// (all empty strings are the same text, whatever array they point into)
+			as = append(as, fmt.Sprintf("(ite (= (slen %s) %s) %s (mkstr (sarr %s) (soff %s) (slen %s) 0))", a.S, c.idxLit(0), c.strConst(""), a.S, a.S, a.S))
 			continue
 		}
 		as = append(as, a.S)
